@@ -223,3 +223,100 @@ def check_push_tables(ctx, prog, I):
                                     '%s to move, enemy %s on d4, own %s possibly on c4, enemy %s possibly on b4: push d4-up offered for presence '
                                     'combinations %s in the code, %s by the rules' % ('gold' if gold else 'silver', v, w, z, fmt_tt(got), fmt_tt(want)))
     ctx.count('local_tables', n)
+
+
+def check_complete_tables(ctx, prog, I):
+    ctx.rule('LT.complete', 'exact table: while a push of a piece of type v is pending, the step of the friendly piece of type w into the '
+                            'vacated square is offered iff it is present, w > v, and it is not frozen (a stronger enemy next to it and no '
+                            'friend next to it)')
+    fn = prog.one('GameState::valid_actions_')
+    from .rules_c01 import run_valid_actions, classify_items
+    sq = G.sq('d', 4)                 # vacated square
+    n1 = G.step(sq, 'Left')           # c4: candidate pusher, completes with c4 -> Right
+    n2 = G.step(n1, 'Up')             # c5: enemy next to the pusher
+    n3 = G.step(n1, 'Left')           # b4: friend next to the pusher
+    a, b, c = (B.lit(('pres', k)) for k in (1, 2, 3))
+    vars_ = [('pres', 1), ('pres', 2), ('pres', 3)]
+    n = 0
+    for gold in (True, False):
+        for v in ('Rabbit', 'Cat', 'Dog', 'Horse', 'Camel'):
+            for w in G.STRENGTH:
+                for z in ('Elephant', 'Rabbit', 'Horse'):
+                    contents = {n1: (gold, w, a), n2: (not gold, z, b), n3: (gold, 'Rabbit', c)}
+                    board = local_board(prog, contents)
+                    gsv = with_board(prog, inputs.play_state(prog, gold, 1, 'MustCompletePush', sq, v), board)
+                    r = run_valid_actions(I, prog, gsv, False)
+                    got_bit = C0
+                    extra = False
+                    for x in classify_items(prog, r):
+                        if x[0] == 'elem' and x[2][0] == 'Move' and x[2][2] == 'Right' and isinstance(x[2][1], BV) and x[2][1].known() \
+                                and x[2][1].uval() == n1:
+                            got_bit = B.bor(got_bit, x[1])
+                        elif x[1] is not C0 and not (x[0] == 'elem' and x[2][0] == 'Move'):
+                            extra = True
+                    got = tt(got_bit, vars_)
+                    sw, fz = stronger(w, v), stronger(z, w)
+                    want = table_of(lambda x, y, f: x and sw and ((not (y and fz)) or f), 3)
+                    ok = got == want and not extra
+                    n += 1
+                    ctx.ob('%s: pending push of %s; %s on c4?, enemy %s on c5?, friend on b4?: completing step table %s' % (
+                        'gold' if gold else 'silver', v, w, z, fmt_tt(want)), ok, sample=(v == 'Cat' and w == 'Dog' and z == 'Horse' and gold))
+                    if not ok:
+                        ctx.finding('LT.complete', fn, '%s:%s:%s:%s' % ('G' if gold else 'S', v, w, z),
+                                    '%s to move, push of a %s out of d4 pending; own %s possibly on c4, enemy %s possibly on c5, friend possibly on b4: '
+                                    'completing step c4-right offered for presence combinations %s in the code, %s by the rules%s'
+                                    % ('gold' if gold else 'silver', v, w, z, fmt_tt(got), fmt_tt(want), '; other items are offered too' if extra else ''))
+    ctx.count('local_tables', n)
+
+
+def check_preview_tables(ctx, prog, I):
+    ctx.rule('LT.preview', 'exact table: when a piece on trap t1 loses its last supporter, the preview names t1 and the owner of that piece, '
+                           'whatever stands (supported) on another trap t2 - also a piece of the same type and the other colour')
+    fn = prog.one('GameState::trapped_animal_for_action')
+    if not ctx.anchor('fn trapped_animal_for_action', fn is not None):
+        return
+    a = B.lit(('pres', 1))
+    n = 0
+    mv = inputs.enum_variant(prog, 'action::Action', 'Move')
+    for t1 in G.TRAPS:
+        for t2 in G.TRAPS:
+            if t1 == t2:
+                continue
+            for victim_gold in (True, False):
+                for same_type in (True, False):
+                    sup = G.neighbours(t1)[0]                      # last supporter of the victim, steps away from t1
+                    away = next(d for d in inputs.DIRS if G.step(sup, d) is not None and G.step(sup, d) != t1
+                                and G.step(sup, d) not in G.neighbours(t1) and G.step(sup, d) not in G.TRAPS)
+                    other_sup = G.neighbours(t2)[-1]
+                    if other_sup in (sup, G.step(sup, away)) or t2 in (sup, G.step(sup, away)):
+                        continue
+                    contents = {t1: (victim_gold, 'Dog', C1), sup: (victim_gold, 'Cat', C1),
+                                t2: (not victim_gold, 'Dog' if same_type else 'Horse', a), other_sup: (not victim_gold, 'Cat', C1)}
+                    board = local_board(prog, contents)
+                    gsv = with_board(prog, inputs.play_state(prog, victim_gold, 1), board)
+                    st = State({})
+                    gs = inputs.ref_to(I, st, 'gs', gsv)
+                    act = inputs.ref_to(I, st, 'act', Enum('action::Action', mv, (inputs.square(sup), inputs.direction(prog, away))))
+                    r, _ = I.call_fn(fn, [gs, act], st)
+                    n += 1
+                    ok = False
+                    detail = repr(r)[:160]
+                    if isinstance(r, Enum) and r.var == 1:
+                        sqv, pcv, owner = r.fields[0].fields
+                        idx = sqv.fields[0]
+                        ok_sq = isinstance(idx, BV) and idx.known() and idx.uval() == t1
+                        ok_owner = isinstance(owner, BV) and owner.bits[0] is (C1 if victim_gold else C0)
+                        ok_type = isinstance(pcv, Enum) and prog.types['piece::Piece']['variants'][pcv.var]['name'] == 'Dog'
+                        ok = ok_sq and ok_owner and ok_type
+                        detail = 'square %s, type %s, owner flag %r' % (G.name(idx.uval()) if isinstance(idx, BV) and idx.known() else idx,
+                                                                        pcv, owner.bits[0] if isinstance(owner, BV) else owner)
+                    ctx.ob('%s dog on %s loses its supporter, %s %s possibly on %s: preview = (%s, Dog, %s)' % (
+                        'gold' if victim_gold else 'silver', G.name(t1), 'silver' if victim_gold else 'gold', 'dog' if same_type else 'horse',
+                        G.name(t2), G.name(t1), victim_gold), ok, sample=(t1 == G.TRAPS[0] and t2 == G.TRAPS[1] and same_type))
+                    if not ok:
+                        ctx.finding('LT.preview', fn, '%s:%s:%s' % ('gold' if victim_gold else 'silver', 'same' if same_type else 'other', G.name(t1)),
+                                    '%s dog on %s loses its last supporter while a %s %s may stand supported on %s: the preview reports %s; '
+                                    'expected (%s, Dog, owner gold=%s) regardless of the other trap'
+                                    % ('gold' if victim_gold else 'silver', G.name(t1), 'silver' if victim_gold else 'gold',
+                                       'dog' if same_type else 'horse', G.name(t2), detail, G.name(t1), victim_gold))
+    ctx.count('local_tables', n)
